@@ -3,7 +3,7 @@
     channel); the bounded queues of proxyOut (2 internal slots, the operator
     channel's capacity) are exercised by the harness's stalled-terminal cases
     and judged by the monitor, not proved. *)
-From CRS Require Import Lib.Bytes Model.Broker Proofs.BrokerProofs Props.C01.
+From CRS Require Import Lib.Bytes Model.Broker Proofs.BrokerProofs Props.C01 Model.Terminal Proofs.TerminalProofs.
 Open Scope N_scope.
 
 (** One read of the attached output stream: the bytes are displayed exactly
@@ -25,6 +25,15 @@ Theorem c03_nothing_else_displayed : forall s o, Tab s ->
   forall d, In (OPlain d) (o_och (snd (step s o))) ->
   exists id e sd, o = OData id d e /\ cout s = Some (id, sd).
 Proof. exact plain_comes_from_cout. Qed.
+
+(** The last hop (lib/opshell): however the transport cut the byte sequence
+    [s] into reads, what the terminal shows for those reads is [s] (each LF rendered as CR LF
+    by x/term for the raw-mode terminal, which loses nothing), and what
+    has been shown after any number of them is a prefix of it. *)
+Theorem c03_terminal_any_chunking : forall sizes s, shown (cut sizes s) = crlf s /\ uncrlf (shown (cut sizes s)) = s.
+Proof. intros sizes s. split; [apply shown_cut | apply shown_cut_exact]. Qed.
+Theorem c03_terminal_prefix : forall a b, exists t, shown (a ++ b) = shown a ++ t.
+Proof. exact shown_prefix. Qed.
 
 Example c03_example :
   let ops := [OAdmit 1 (mkd DOut (KUni [97]) 1); OData 1 [1; 2] None; OData 1 [] None; OData 1 [3] (Some RUnexpectedEof);
